@@ -290,4 +290,329 @@ theorem h2_request_decode_partial (H : Hpack) (data : Bytes) (frames : List Fram
   simp only [hne, Bool.false_eq_true, if_false, hprim, hbuild]
   exact request_fields hs f.sid frames hleg k4
 
+/-! ## 3. responses -/
+
+private theorem status_slot (ts : List Field) (hc : count ts nStatus ≤ 1) :
+    (accOf ts).status = statusOf ts := by
+  rw [acc_slot ts (·.status) nStatus (fun h => h.value.bind parseU16) add_status rfl]
+  unfold statusOf pseudoValue
+  rw [← count_le_find ts nStatus hc, ← filter_zipIdx_fst (fun f : Field => f.1 == nStatus) ts,
+    List.getLast?_map, List.filter_map, List.getLast?_map]
+  have h1 : (ts.zipIdx.filter ((fun h => h.name == nStatus) ∘ mk))
+      = ts.zipIdx.filter (fun p => (fun f : Field => f.1 == nStatus) p.1) := rfl
+  rw [h1]
+  cases (ts.zipIdx.filter (fun p => (fun f : Field => f.1 == nStatus) p.1)).getLast? with
+  | none => rfl
+  | some p =>
+    simp only [Option.map_some, Option.bind_some, mk]
+    by_cases he : p.1.2.isEmpty = true
+    · have : p.1.2 = [] := List.isEmpty_iff.mp he
+      simp [he, this, parseU16]
+    · simp [he]
+
+theorem response_fields (hs : List Field) (sid : Nat) (frames : List Frame)
+    (hleg : legalResponseFields hs = true) (k4 : KF.C16.emptyValue false hs = false) :
+    ∃ r, finishResponse ((toHdrs hs).foldl StreamAcc.add {}) sid frames = .ok (some r) ∧
+      respCore r = responseOf hs := by
+  rw [toHdrs_eq]
+  generalize hts : textFields hs = ts
+  have hacc : (ts.zipIdx.map mk).foldl StreamAcc.add {} = accOf ts := rfl
+  rw [hacc]
+  unfold legalResponseFields at hleg
+  rw [hts] at hleg
+  simp only [Bool.and_eq_true, decide_eq_true_eq, beq_iff_eq] at hleg
+  obtain ⟨⟨⟨⟨hps, hcs⟩, hst⟩, _⟩, _⟩ := hleg
+  have hps' : ∀ f ∈ ts, isPseudoField f = true → special f.1 = true := by
+    intro f hf hp
+    rw [List.all_eq_true] at hps
+    have := hps f (List.mem_filter.mpr ⟨hf, hp⟩)
+    simp only [beq_iff_eq] at this
+    unfold special
+    simp [this]
+  have hs' := status_slot ts (by omega)
+  obtain ⟨st, hst'⟩ := Option.isSome_iff_exists.mp hst
+  have hh := acc_headers ts hps'
+  change (accOf ts).headers = (R ts).map mk at hh
+  unfold finishResponse
+  rw [hs', hst']
+  simp only
+  refine ⟨_, rfl, ?_⟩
+  unfold respCore responseOf
+  rw [hts]
+  simp only [RespCore.mk.injEq, hst', Option.getD_some, true_and]
+  rw [hh, regular_R]
+  apply List.map_congr_left
+  intro q hq
+  apply mk_eq_mk'
+  unfold KF.C16.emptyValue at k4
+  rw [hts, regular_R, List.any_eq_false] at k4
+  have := k4 (mk' q) (List.mem_map_of_mem hq)
+  simpa [mk'] using this
+
+/-- **C16, responses (`Http2Parser::parse_response`).** -/
+theorem h2_response_decode_partial (H : Hpack) (data : Bytes) (frames : List Frame) (f : Frame)
+    (after : List Frame) (b : Bytes) (hs : List Field) (σ' : H.σ)
+    (hsplit : Splits data frames)
+    (hblk : primaryBlock frames = some (f, after, .complete b))
+    (hdec : H.dec H.init b = (some hs, σ'))
+    (hleg : legalResponseFields hs = true) (hlater : noLaterBlocks f after = true)
+    (hstray : noStrayContinuation f frames = true)
+    (k1 : KF.C16.headersPaddedOrPriority frames = false) (k2 : KF.C16.headersContinued frames = false)
+    (k4 : KF.C16.emptyValue false hs = false) :
+    ∃ r, parseResponse H data = .ok (some r) ∧ respCore r = responseOf hs := by
+  have hfr : frames = parseFrames data := C17.splits_unique hsplit (C17.parseFrames_splits _)
+  obtain ⟨hprim, hbuild⟩ := buildStream_plain H frames f after b hs σ' hblk hdec hlater hstray k1 k2
+  have hne := frames_nonempty frames _ hblk
+  unfold parseResponse
+  rw [← hfr]
+  simp only [hne, Bool.false_eq_true, if_false, hprim, hbuild]
+  exact response_fields hs f.sid frames hleg k4
+
+/-! ## 4. the observable level: user agent, language, p0f signature -/
+
+private theorem countHdr_filter_le (l : List Hdr) (q : Hdr → Bool) (key : Bytes) :
+    countHdr (l.filter q) key ≤ countHdr l key := by
+  unfold countHdr
+  rw [List.filter_filter]
+  have : l.filter (fun a => eqIgnoreCase a.name key && q a) = (l.filter (fun h => eqIgnoreCase h.name key)).filter q := by
+    rw [List.filter_filter]
+    apply List.filter_congr
+    intro a _
+    exact Bool.and_comm _ _
+  rw [this]
+  exact List.length_filter_le _ _
+
+private theorem regular_values_some (ts : List Field) : ∀ h ∈ regular ts, h.value.isSome = true := by
+  intro h hh
+  rw [regular_R, List.mem_map] at hh
+  obtain ⟨q, _, rfl⟩ := hh
+  rfl
+
+theorem obs_request_of_core (lang : Bytes → Option Bytes) (hs : List Field) (r : Request)
+    (hcore : reqCore r = requestOf hs) (hleg : legalRequestFields hs = true)
+    (k3 : KF.C16.listCase Gen.H2Lists.requestOptionalHeaders Gen.H2Lists.requestSkipValueHeaders
+            (requestOf hs).headers = false) :
+    obsReqCore (toObsRequest lang r) = obsRequestOf lang hs := by
+  unfold reqCore at hcore
+  have hm : r.method = (requestOf hs).method := congrArg ReqCore.method hcore
+  have hp : r.path = (requestOf hs).path := congrArg ReqCore.path hcore
+  have hh : r.headers = (requestOf hs).headers := congrArg ReqCore.headers hcore
+  have hc : r.cookies = (requestOf hs).cookies := congrArg ReqCore.cookies hcore
+  have hr : r.referer = (requestOf hs).referer := congrArg ReqCore.referer hcore
+  unfold legalRequestFields at hleg
+  simp only [Bool.and_eq_true, decide_eq_true_eq] at hleg
+  obtain ⟨⟨⟨_, hua⟩, hal⟩, _⟩ := hleg
+  have hHs : (requestOf hs).headers = requestHeaders (textFields hs) := rfl
+  have hsome : ∀ h ∈ (requestOf hs).headers, h.value.isSome = true := by
+    intro h hh'
+    rw [hHs] at hh'
+    unfold requestHeaders at hh'
+    exact regular_values_some _ h (List.mem_filter.mp hh').1
+  have hcu : countHdr (requestOf hs).headers nUserAgent ≤ 1 := by
+    rw [hHs]; unfold requestHeaders
+    exact Nat.le_trans (countHdr_filter_le _ _ _) hua
+  have hcl : countHdr (requestOf hs).headers nAcceptLanguage ≤ 1 := by
+    rw [hHs]; unfold requestHeaders
+    exact Nat.le_trans (countHdr_filter_le _ _ _) hal
+  have hua' := lastValue_eq_valueOf (requestOf hs).headers nUserAgent lower_fixed.2.2.1 (fun h hh' _ => hsome h hh') hcu
+  have hal' := lastValue_eq_valueOf (requestOf hs).headers nAcceptLanguage lower_fixed.2.2.2.1 (fun h hh' _ => hsome h hh') hcl
+  unfold obsReqCore toObsRequest obsRequestOf
+  simp only [hm, hp, hh, hc, hr, hua', hal', toSig_eq _ _ _ k3, absent_eq]
+
+theorem obs_response_of_core (hs : List Field) (r : Response)
+    (hcore : respCore r = responseOf hs) (hleg : legalResponseFields hs = true)
+    (hsrv : r.server = lastValue r.headers nServer)
+    (k3 : KF.C16.listCase Gen.H2Lists.responseOptionalHeaders Gen.H2Lists.responseSkipValueHeaders
+            (responseOf hs).headers = false) :
+    obsRespCore (toObsResponse r) = obsResponseOf hs := by
+  unfold respCore at hcore
+  have hst : r.status = (responseOf hs).status := congrArg RespCore.status hcore
+  have hh : r.headers = (responseOf hs).headers := congrArg RespCore.headers hcore
+  unfold legalResponseFields at hleg
+  simp only [Bool.and_eq_true, decide_eq_true_eq] at hleg
+  obtain ⟨_, hcs⟩ := hleg
+  have hHs : (responseOf hs).headers = regular (textFields hs) := rfl
+  have hsome : ∀ h ∈ (responseOf hs).headers, h.value.isSome = true := by
+    intro h hh'; rw [hHs] at hh'; exact regular_values_some _ h hh'
+  have hs' := lastValue_eq_valueOf (responseOf hs).headers nServer lower_fixed.2.2.2.2 (fun h hh' _ => hsome h hh')
+    (by rw [hHs]; exact hcs)
+  unfold obsRespCore toObsResponse obsResponseOf
+  simp only [hst, hh, hsrv, hs', toSig_eq _ _ _ k3, absent_eq]
+
+private theorem canParse_of_preface (data : Bytes) (hpre : hasPreface data = true) : h2CanParse data = true := by
+  unfold h2CanParse
+  have h24 : data.length ≥ 24 := by
+    have := (List.isPrefixOf_iff_prefix.mp hpre).length_le
+    have hl : preface.length = 24 := by decide
+    omega
+  simp [hpre, h24]
+
+/-- **C16, observable request (`HttpProcessors::parse_request`).** Under the hypotheses of
+`h2_request_decode_partial` and outside `KF.C16.listCase`, the analyzer reports method, uri, ordered
+header list, cookies, referer, user agent, language and the p0f-style signature
+(`horder`, `habsent`, `expsw`) of the encoded field list. -/
+theorem h2_observable_request_partial (H : Hpack) (lang : Bytes → Option Bytes) (data : Bytes)
+    (frames : List Frame) (f : Frame) (after : List Frame) (b : Bytes) (hs : List Field) (σ' : H.σ)
+    (hpre : hasPreface data = true) (hsplit : Splits (afterPreface data) frames)
+    (hblk : primaryBlock frames = some (f, after, .complete b))
+    (hdec : H.dec H.init b = (some hs, σ'))
+    (hleg : legalRequestFields hs = true) (hlater : noLaterBlocks f after = true)
+    (hstray : noStrayContinuation f frames = true)
+    (k1 : KF.C16.headersPaddedOrPriority frames = false) (k2 : KF.C16.headersContinued frames = false)
+    (k4 : KF.C16.emptyValue true hs = false)
+    (k3 : KF.C16.listCase Gen.H2Lists.requestOptionalHeaders Gen.H2Lists.requestSkipValueHeaders
+            (requestOf hs).headers = false) :
+    (processorsParseRequest H lang data).map obsReqCore = some (obsRequestOf lang hs) := by
+  obtain ⟨r, hr, hcore⟩ := h2_request_decode_partial H data frames f after b hs σ' hpre hsplit hblk hdec hleg
+    hlater hstray k1 k2 k4
+  unfold processorsParseRequest
+  simp only [canParse_of_preface data hpre, if_true, hr, Option.map_some]
+  rw [obs_request_of_core lang hs r hcore hleg k3]
+
+/-- the `server` field of the response record is what `toObsResponse` reads -/
+private theorem finishResponse_server {st : StreamAcc} {sid : Nat} {frames : List Frame} {r : Response}
+    (h : finishResponse st sid frames = .ok (some r)) : r.server = lastValue r.headers nServer := by
+  unfold finishResponse at h
+  cases hs : st.status with
+  | none => rw [hs] at h; cases h
+  | some s =>
+    rw [hs] at h
+    simp only [Except.ok.injEq, Option.some.injEq] at h
+    rw [← h]
+
+/-- **C16, observable response (`HttpProcessors::parse_response`)**, for inputs on which the
+HTTP/2 adapter is consulted (`h2CanParse`). -/
+theorem h2_observable_response_partial (H : Hpack) (data : Bytes)
+    (frames : List Frame) (f : Frame) (after : List Frame) (b : Bytes) (hs : List Field) (σ' : H.σ)
+    (hcan : h2CanParse data = true) (hsplit : Splits data frames)
+    (hblk : primaryBlock frames = some (f, after, .complete b))
+    (hdec : H.dec H.init b = (some hs, σ'))
+    (hleg : legalResponseFields hs = true) (hlater : noLaterBlocks f after = true)
+    (hstray : noStrayContinuation f frames = true)
+    (k1 : KF.C16.headersPaddedOrPriority frames = false) (k2 : KF.C16.headersContinued frames = false)
+    (k4 : KF.C16.emptyValue false hs = false)
+    (k3 : KF.C16.listCase Gen.H2Lists.responseOptionalHeaders Gen.H2Lists.responseSkipValueHeaders
+            (responseOf hs).headers = false) :
+    (processorsParseResponse H data).map obsRespCore = some (obsResponseOf hs) := by
+  have hfr : frames = parseFrames data := C17.splits_unique hsplit (C17.parseFrames_splits _)
+  obtain ⟨hprim, hbuild⟩ := buildStream_plain H frames f after b hs σ' hblk hdec hlater hstray k1 k2
+  have hne := frames_nonempty frames _ hblk
+  obtain ⟨r, hr, hcore⟩ := response_fields hs f.sid frames hleg k4
+  have hparse : parseResponse H data = .ok (some r) := by
+    unfold parseResponse
+    rw [← hfr]
+    simp only [hne, Bool.false_eq_true, if_false, hprim, hbuild]
+    exact hr
+  unfold processorsParseResponse
+  simp only [hcan, if_true, hparse, Option.map_some]
+  rw [obs_response_of_core hs r hcore hleg (finishResponse_server hr) k3]
+
+/-! ## 5. non-vacuity and witnesses -/
+
+/-- for a concrete input and the crate's HPACK: every hypothesis of `FullRequestDecode` holds -/
+private def hypsHold (data : Bytes) : Bool :=
+  let frames := parseFrames (afterPreface data)
+  match primaryBlock frames with
+  | some (f, after, .complete b) =>
+    match Hpack.crate.dec Hpack.crate.init b with
+    | (some hs, _) =>
+      hasPreface data && legalRequestFields hs && noLaterBlocks f after && noStrayContinuation f frames
+    | _ => false
+  | _ => false
+
+/-- … and its conclusion fails -/
+private def conclusionFails (data : Bytes) : Bool :=
+  let frames := parseFrames (afterPreface data)
+  match primaryBlock frames with
+  | some (_, _, .complete b) =>
+    match Hpack.crate.dec Hpack.crate.init b with
+    | (some hs, _) =>
+      !(match parseRequest Hpack.crate data with
+        | .ok (some r) => decide (reqCore r = requestOf hs)
+        | _ => false)
+    | _ => false
+  | _ => false
+
+private theorem refutes (data : Bytes) (h1 : hypsHold data = true) (h2 : conclusionFails data = true) :
+    ¬ FullRequestDecode := by
+  intro hfull
+  unfold hypsHold at h1
+  unfold conclusionFails at h2
+  simp only at h1 h2
+  cases hpb : primaryBlock (parseFrames (afterPreface data)) with
+  | none => rw [hpb] at h1; simp at h1
+  | some x =>
+    obtain ⟨f, after, blk⟩ := x
+    rw [hpb] at h1 h2
+    cases blk with
+    | incomplete => simp at h1
+    | malformed => simp at h1
+    | complete b =>
+      simp only at h1 h2
+      cases hd : Hpack.crate.dec Hpack.crate.init b with
+      | mk res σ' =>
+        rw [hd] at h1 h2
+        cases res with
+        | none => simp at h1
+        | some hs =>
+          simp only [Bool.and_eq_true] at h1
+          obtain ⟨⟨⟨hpre, hleg⟩, hlat⟩, hstr⟩ := h1
+          obtain ⟨r, hr, hcore⟩ := hfull Hpack.crate data _ f after b hs σ' hpre (C17.parseFrames_splits _) hpb hd
+            hleg hlat hstr
+          rw [hr] at h2
+          simp [hcore] at h2
+
+private def pre : Bytes := Spec.H2.clientPreface
+-- HEADERS (END_STREAM|END_HEADERS) stream 1: :method GET, :path /, :scheme https, user-agent: curl/8 (literal), accept: */*
+private def blockGood : Bytes :=
+  [0x82, 0x84, 0x87, 0x00, 0x0a, 117, 115, 101, 114, 45, 97, 103, 101, 110, 116, 0x06, 99, 117, 114, 108, 47, 56,
+   0x00, 0x06, 97, 99, 99, 101, 112, 116, 0x03, 42, 47, 42]
+private def wGood : Bytes := pre ++ [0, 0, 34, 1, 5, 0, 0, 0, 1] ++ blockGood
+
+private def ua : Bytes := [117, 115, 101, 114, 45, 97, 103, 101, 110, 116]
+private def curl8 : Bytes := [99, 117, 114, 108, 47, 56]
+private def acc : Bytes := [97, 99, 99, 101, 112, 116]
+private def star : Bytes := [42, 47, 42]
+
+example : hypsHold wGood = true ∧
+    KF.C16.headersPaddedOrPriority (parseFrames (afterPreface wGood)) = false ∧
+    KF.C16.headersContinued (parseFrames (afterPreface wGood)) = false ∧
+    (match parseRequest Hpack.crate wGood with
+     | .ok (some r) => decide (reqCore r =
+        { method := [71, 69, 84], path := [47], authority := none, scheme := some [104, 116, 116, 112, 115],
+          headers := [{ name := ua, value := some curl8, position := 3 }, { name := acc, value := some star, position := 4 }],
+          cookies := [], referer := none })
+     | _ => false) = true := by decide
+
+-- the same block behind the PRIORITY fields (flags END_STREAM|END_HEADERS|PRIORITY)
+private def wPriority : Bytes := pre ++ [0, 0, 39, 1, 0x25, 0, 0, 0, 1, 0, 0, 0, 0, 15] ++ blockGood
+-- the same block cut after 5 octets (inside the literal name)
+private def wContinued : Bytes :=
+  pre ++ [0, 0, 5, 1, 1, 0, 0, 0, 1] ++ blockGood.take 5 ++ [0, 0, 29, 9, 4, 0, 0, 0, 1] ++ blockGood.drop 5
+-- :method GET, :path /, x-e: (empty), accept: */*
+private def wEmpty : Bytes :=
+  pre ++ [0, 0, 20, 1, 5, 0, 0, 0, 1, 0x82, 0x84, 0x00, 0x03, 120, 45, 101, 0x00, 0x00, 0x06, 97, 99, 99, 101, 112, 116, 0x03, 42, 47, 42]
+
+theorem kf_headersPaddedOrPriority_witness :
+    KF.C16.headersPaddedOrPriority (parseFrames (afterPreface wPriority)) = true ∧
+    hypsHold wPriority = true ∧ conclusionFails wPriority = true := by decide
+theorem kf_headersContinued_witness :
+    KF.C16.headersContinued (parseFrames (afterPreface wContinued)) = true ∧
+    hypsHold wContinued = true ∧ conclusionFails wContinued = true := by decide
+theorem kf_emptyValue_witness :
+    hypsHold wEmpty = true ∧ conclusionFails wEmpty = true := by decide
+
+/-- the statement without exclusions is false for the current code -/
+theorem fullRequestDecode_fails : ¬ FullRequestDecode :=
+  refutes wPriority kf_headersPaddedOrPriority_witness.2.1 kf_headersPaddedOrPriority_witness.2.2
+
+/-- `KF.C16.listCase`: the signature of `user-agent: curl/8`, `accept: */*` keeps the user-agent value
+(the skip-value list says `User-Agent`, the code looks up `user-agent`) -/
+theorem kf_listCase_witness :
+    let hs : List Field := [(nMethod, [71, 69, 84]), (nPath, [47]), (nScheme, [104, 116, 116, 112, 115]), (ua, curl8), (acc, star)]
+    KF.C16.listCase Gen.H2Lists.requestOptionalHeaders Gen.H2Lists.requestSkipValueHeaders (requestOf hs).headers = true ∧
+    (Hpack.crate.dec Hpack.crate.init blockGood).1 = some hs ∧
+    (processorsParseRequest Hpack.crate (fun _ => none) wGood).map obsReqCore ≠ some (obsRequestOf (fun _ => none) hs) := by
+  decide
+
 end Huginn.Props.C16
